@@ -13,8 +13,13 @@ def ff_variants(tier, include_rm=True):
     ids = [l for l in LINK_IDS if include_rm or l != "rm"]
     out = [dict(links=[])]
     out += [dict(links=[a]) for a in ids]
-    for a, b in itertools.permutations(ids, 2):
+    # every unordered pair; both orders where the order of definition can matter (same interaction defined twice,
+    # vetoes / removals that look at what earlier links did)
+    order_sensitive = {"bb", "bbA", "repl", "ver2", "nonedge", "rm", "partial"}
+    for a, b in itertools.combinations(ids, 2):
         out.append(dict(links=[a, b]))
+        if (a in order_sensitive and b in order_sensitive) or tier == "thorough":
+            out.append(dict(links=[b, a]))
     if tier == "thorough":
         core = ["bb", "bbA", "ang3", "gt", "a_c", "repl", "nonedge", "pat", "ver2", "circ", "edge_only"]
         for tri in itertools.combinations(core, 3):
